@@ -260,6 +260,9 @@ def oracle_campaign(check, sv, which, desc):
             for cp in D.CROSS:
                 if D.in_proto(cp) == p:
                     run(dict(protocol=cp, validator='soft', transport='server', body=b), 'corpus, cross output')
+    for b in G.CORPUS_MPRPC_BARE:
+        for v in (None, 'soft'):
+            run(dict(protocol='mprpc', validator=v, transport='server', body=b, bare=True), 'corpus')
     # 3. every prefix of one valid request per protocol (thorough: of several)
     for rep in range(1 if quick else 6):
         m, args = G.gen_request(rng, desc)
@@ -421,7 +424,11 @@ def run(check):
                   'unknown members, wrong value kinds, wrong nesting, xsi:nil / xsi:type / id / href attributes, entity '
                   'references), rendered for XmlDocument, Soap11, Soap12, JsonDocument, YamlDocument, MessagePackDocument, '
                   'MessagePackRpc and HttpRpc (GET), plus truncations at every/sampled prefixes, byte corruption, random bytes, a '
-                  'fixed corpus of parser-defeating inputs and WSGI header variations; every validator setting (None, soft, and '
+                  'fixed corpus of parser-defeating inputs, WSGI header variations and a Content-Type grammar stream (parameters as '
+                  'token / quoted-string / RFC 2231 extended and continued / duplicated / junk, some 50 codec names incl. non-text and '
+                  'failing codecs, multipart/related wrappings); wrapped and BARE methods (primitive, Array, class arguments); '
+                  'hostile literals incl. characters XML cannot carry, also with an XML-family OUTPUT protocol behind a JSON / YAML / '
+                  'MessagePack input; every validator setting (None, soft, and '
                   'lxml for the XML family), through ServerBase and through WsgiApplication.  A case is distinct by (service, '
                   'protocol, validator, transport, body, transport parameters)')
     check.trusted = list(lib.COMMON_TRUSTED) + [
